@@ -116,14 +116,28 @@ fn serialisations(st: &Store) -> Vec<String> {
 }
 
 /// runs one history; `ops` None = generate while running.  Returns (ops, observation line).
+thread_local! {
+    /// the start forest is built with consolidation switched off (so that text nodes written next to each other stay apart) and
+    /// consolidation is switched on again before the first call: the regime in which text nodes touch while consolidation is on
+    pub static BUILD_UNCONSOLIDATED: std::cell::Cell<bool> = std::cell::Cell::new(false);
+}
+
 pub fn run_history(case: &str, pid: &str, seed_rng: &mut Rng, start: &[ANode], ops_in: Option<Vec<Op>>, cfg: &HistCfg,
                    out: &mut Out, stats: &mut Stats, init_cons: bool) -> (String, String, Vec<Op>, String) {
     let mut st = Store::new();
     let pool = make_pool(&mut st.xot, &mut st.reg, true);
+    // (a start forest that writes two text nodes next to each other can only be built that way, also when it is replayed)
+    fn adjacent_text(a: &ANode) -> bool {
+        let kids: &[ANode] = match a { ANode::Doc(k) => k, ANode::Elem { kids, .. } => kids, _ => return false };
+        kids.windows(2).any(|w| matches!((&w[0], &w[1]), (ANode::Text(_), ANode::Text(_)))) || kids.iter().any(adjacent_text)
+    }
+    let unconsolidated = BUILD_UNCONSOLIDATED.with(|f| f.get()) || start.iter().any(adjacent_text);
+    if unconsolidated { st.set_cons(false); }
     for a in start {
         let n = build(&mut st.xot, &st.reg, a);
         st.learn(n);
     }
+    if unconsolidated { st.set_cons(true); }
     st.refresh();
     if !init_cons {
         st.set_cons(false);
@@ -227,6 +241,23 @@ pub fn run_history(case: &str, pid: &str, seed_rng: &mut Rng, start: &[ANode], o
                     }
                 }
                 None => stats.bump("c05.unpredicted"),
+            }
+        }
+        // ---- C05, in every store (also one with adjacent text nodes left over from a time when consolidation was off, where the
+        //      ordered-tree model does not predict which pairs a call merges): a move neither makes nor loses character data
+        if let Some(bf) = &before_forest {
+            if matches!(op, Op::Append(..) | Op::Prepend(..) | Op::InsertAfter(..) | Op::InsertBefore(..) | Op::AnyAppend(..) | Op::Detach(_) | Op::Wrap(..) | Op::Unwrap(_)) {
+                if let Outcome::Ok(_) = &outcome {
+                    let chars = |f: &OForest| -> Vec<char> {
+                        let mut v: Vec<char> = f.nodes.values().filter_map(|n| match &n.val { OVal::Text(t) => Some(t.clone()), _ => None }).flat_map(|t| t.chars().collect::<Vec<char>>()).collect();
+                        v.sort();
+                        v
+                    };
+                    let (b, a) = (chars(bf), chars(&oforest(&st)));
+                    if b != a {
+                        out.fail(case, "move-changed-character-data", &format!("step {}: `{}` succeeded and the text nodes of the store hold {} characters where they held {}", k, op_str(&op), a.len(), b.len()));
+                    }
+                }
             }
         }
         // ---- C12: a clone is equal to its source, made of new nodes, and shares nothing; every call leaves alone the trees
@@ -379,6 +410,49 @@ pub fn main_for(pid: &str) {
                 out.imp(&format!("{} {}", case, obs));
             }
         }
+    }
+    // ---- the same, in the regime in which text nodes touch although consolidation is on (the start forest is built with
+    // consolidation switched off, then it is switched on): an element whose children are three text nodes and an element, in the
+    // four orders that put the element first, last and in between; every structural call with every argument pair over the
+    // element and its children.  The ordered-tree model does not predict which pairs a call merges here; the oracle is that a
+    // move neither makes nor loses character data, and the correspondence compares the whole store.
+    {
+        let mut tmp = Store::new();
+        let pool = make_pool(&mut tmp.xot, &mut tmp.reg, true);
+        let cfg = HistCfg { steps: 1, refusal_bias: 0, with_clonep: false, with_rmws: false, rmws_pct: 0, clone_pct: 0 };
+        let mut r = base.fork(u64::MAX - 7);
+        let name = pool.names[0];
+        let txt = |s: &str| ANode::Text(s.into());
+        let el = || ANode::Elem { name, ns: vec![], attrs: vec![], kids: vec![] };
+        let orders: Vec<Vec<ANode>> = vec![
+            vec![txt("a"), txt("b"), txt("c"), el()], vec![el(), txt("a"), txt("b"), txt("c")],
+            vec![txt("a"), el(), txt("b"), txt("c")], vec![txt("a"), txt("b"), txt("c")],
+        ];
+        let mut idx = 0usize;
+        BUILD_UNCONSOLIDATED.with(|f| f.set(true));
+        for kids in orders {
+            let start = vec![ANode::Doc(vec![ANode::Elem { name, ns: vec![], attrs: vec![], kids }]), ANode::Text("d".into())];
+            let mut probe = Store::new();
+            let _ = make_pool(&mut probe.xot, &mut probe.reg, true);
+            probe.set_cons(false);
+            for t in &start { let n = build(&mut probe.xot, &probe.reg, t); probe.learn(n); }
+            probe.set_cons(true);
+            probe.refresh();
+            let hs: Vec<Handle> = probe.live_handles().into_iter().filter(|h| !probe.xot.is_document(probe.known[h])).collect();
+            for op in small_ops(&hs, pool.names[1 % pool.names.len()]) {
+                if a.tier != "thorough" && !matches!(op, Op::Append(..) | Op::Prepend(..) | Op::InsertAfter(..) | Op::InsertBefore(..) | Op::AnyAppend(..) | Op::Detach(_) | Op::Remove(_) | Op::Replace(..)) { continue; }
+                let case = format!("j{}", idx);
+                idx += 1;
+                let (tables, init, ops, obs) = run_history(&case, pid, &mut r, &start, Some(vec![op]), &cfg, &mut out, &mut stats, true);
+                let ops_text: Vec<String> = ops.iter().map(op_str).collect();
+                let line = format!("{} {} | {} | {}", case, tables, init, ops_text.join(";"));
+                out.case(&line);
+                stats.case(&line, true);
+                stats.bump("stream.adjacent_text_regime");
+                out.imp(&format!("{} {}", case, obs));
+            }
+        }
+        BUILD_UNCONSOLIDATED.with(|f| f.set(false));
     }
     // ---- exhaustive three-call histories on one small forest (state that persists inside the Xot between calls — a cache, a
     // switch, a remembered insertion point — shows only in a SEQUENCE of calls): an element with a declaration, an attribute, an
